@@ -7,7 +7,7 @@ from cgsim import gen as G, ref, peers
 from cgsim.core import fp, Skip, state_digest
 
 ID = "C08"
-QUICK = dict(worlds=16, runs=100, seconds=25)
+QUICK = dict(worlds=16, runs=100, seconds=15)
 THOROUGH = dict(worlds=256, runs=3000, seconds=30)
 RULE = ("lint-clean circuits (0-10 startpoints, blackbox pins, constants, some cyclic) x assumption sets; "
         "distinct = canonical net + assumptions; non-trivial = some expected count is neither 0 nor 2^n")
